@@ -570,11 +570,15 @@ def types_value(tspec):
         return None
     if tspec[0] == "one":
         return tspec[1]
-    ctor = {"set": set, "tuple": tuple, "list": list, "frozenset": frozenset}[tspec[1]]
+    if tspec[0] == "iter":
+        return iter(list(tspec[2])) if tspec[1] == "iter" else (x for x in list(tspec[2]))
+    ctor = {"set": set, "tuple": tuple, "list": list, "frozenset": frozenset, "dict": dict.fromkeys}[tspec[1]]
     return ctor(tspec[2])
 
 
 def types_tok(tspec):
+    if tspec[0] == "iter":
+        return "i" + (".".join(str(cls_code(k)) for k in tspec[2]) if tspec[2] else "-")
     if tspec[0] in ("d", "D"):
         return "d"
     if tspec[0] == "n":
@@ -587,6 +591,8 @@ def types_tok(tspec):
 
 
 def types_desc(tspec):
+    if tspec[0] == "iter":
+        return ["iter", tspec[1], [k.__name__ for k in tspec[2]]]
     if tspec[0] == "one":
         return ["one", tspec[1].__name__]
     if tspec[0] == "many":
@@ -599,8 +605,8 @@ def types_from_desc(d):
     look = lambda n: c.get(n, E()["el"].Tag)
     if d[0] == "one":
         return ("one", look(d[1]))
-    if d[0] == "many":
-        return ("many", d[1], [look(n) for n in d[2]])
+    if d[0] in ("many", "iter"):
+        return (d[0], d[1], [look(n) for n in d[2]])
     return (d[0],)
 
 
@@ -611,6 +617,49 @@ def norm_tspec(tspec):
     if tspec[0] == "D":
         return ("d",)
     return tspec
+
+
+STRIPS = [False, True, False, True, 0, 1, None, "", "x", 2, -1]
+
+
+def strip_tok(v) -> str:
+    if v is True:
+        return "1"
+    if v is False:
+        return "0"
+    if v is None:
+        return "n"
+    if isinstance(v, int):
+        return f"i{v}"
+    return "s" + arg_tok(v)
+
+
+def o_iter_strings(receiver, strip, classes):
+    """one-shot iterator as `types` (recorded behaviour, not the documented tuple): `in` consumes the iterator"""
+    left = list(classes)
+
+    def isin(k):
+        while left:
+            x = left.pop(0)
+            if x is k:
+                return True
+        return False
+    out = []
+    if is_tag(receiver):
+        for s in o_strings_below(receiver):
+            if not isin(type(s)):
+                continue
+            if strip:
+                t = o_isspace_strip(s)
+                if t:
+                    out.append((s, t))
+            else:
+                out.append((s, s))
+    elif isin(type(receiver)):
+        t = o_isspace_strip(receiver) if strip else receiver
+        if len(t) > 0:
+            out.append((receiver, t))
+    return out
 
 
 def rand_tspec(r, present):
@@ -626,12 +675,14 @@ def rand_tspec(r, present):
         return ("n",)
     if k < 0.6:
         return ("one", pick())
-    kind = r.choice(("tuple", "tuple", "list", "set", "frozenset"))
+    kind = r.choice(("tuple", "tuple", "list", "set", "frozenset", "dict"))
     m = r.choice((0, 1, 2, 2, 3, 4))
     cl = [pick() for _ in range(m)]
+    if k > 0.93:
+        return ("iter", r.choice(("iter", "gen")), cl)
     if r.random() < 0.05:
         cl.append(e["el"].Tag)
-    if kind in ("set", "frozenset"):
+    if kind in ("set", "frozenset", "dict"):
         cl = list(dict.fromkeys(cl))
     return ("many", kind, cl)
 
@@ -668,7 +719,7 @@ def run_query(receiver, q):
         elif tspec[0] != "d":
             kw["types"] = types_value(tspec)
         got = list(receiver._all_strings(strip, **kw))
-        want = o_all_strings(receiver, strip, norm_tspec(tspec))
+        want = o_iter_strings(receiver, bool(strip), tspec[2]) if tspec[0] == "iter" else o_all_strings(receiver, bool(strip), norm_tspec(tspec))
         if not strip:
             ident = len(got) == len(want) and all(a is b[0] for a, b in zip(got, want))
         return show_pieces(got), show_pieces([w[1] for w in want]), ident
@@ -685,7 +736,8 @@ def run_query(receiver, q):
             got = receiver.getText(sep, strip, **kw)
         else:
             got = receiver.get_text(sep, strip, **kw)
-        want = sep.join(str.__str__(w[1]) for w in o_all_strings(receiver, strip, norm_tspec(tspec)))
+        pieces_ = o_iter_strings(receiver, bool(strip), tspec[2]) if tspec[0] == "iter" else o_all_strings(receiver, bool(strip), norm_tspec(tspec))
+        want = sep.join(str.__str__(w[1]) for w in pieces_)
         return ptok(got), ptok(want), True
     raise ValueError(q)
 
@@ -696,8 +748,8 @@ def query_tok(path, q):
     if op in ("ST", "SS", "TX", "SP"):
         return f"{p}/{op}"
     if op == "A":
-        return f"{p}/A/{1 if q[1] else 0}/{types_tok(norm_tspec(q[2]))}"
-    return f"{p}/G/{1 if q[1] else 0}/{types_tok(norm_tspec(q[2]))}/{arg_tok(q[3])}"
+        return f"{p}/A/{strip_tok(q[1])}/{types_tok(norm_tspec(q[2]))}"
+    return f"{p}/G/{strip_tok(q[1])}/{types_tok(norm_tspec(q[2]))}/{arg_tok(q[3])}"
 
 
 def query_desc(q):
@@ -832,12 +884,12 @@ def check_tree(ctx, batch, recipe, soup, sc, stream, plan, tree_id):
             ctx.count("q:" + q[0])
             if q[0] in ("A", "G"):
                 ctx.count("types:" + (q[2][0] if q[2][0] != "many" else "many-" + q[2][1] + ("-empty" if not q[2][2] else "")))
-                ctx.count(f"strip:{q[1]}")
+                ctx.count(f"strip:{q[1]!r}")
             if q[0] == "SP":
                 ctx.count("string:" + ("none" if real == "none" else ("self" if not is_tag(n) else "found")))
                 nt = is_tag(n) and real != "none" and bool(n.contents) and is_tag(n.contents[0])
             else:
-                sel = o_selector(n, norm_tspec(q[2]) if q[0] in ("A", "G") else ("d",))
+                sel = o_selector(n, (("many", "list", q[2][2]) if q[2][0] == "iter" else norm_tspec(q[2])) if q[0] in ("A", "G") else ("d",))
                 inc = sum(1 for s in below if sel(type(s)))
                 nt = is_tag(n) and inc >= 1 and inc < len(below)
                 ctx.count("result:" + ("empty" if inc == 0 else "all" if inc == len(below) else "some"))
@@ -873,9 +925,9 @@ def random_plan(r, quick_k):
     def plan(n, present):
         qs = [("ST",), ("SS",), ("TX",), ("SP",)]
         for _ in range(quick_k):
-            qs.append(("G", r.random() < 0.5, rand_tspec(r, present), r.choice(SEPS), r.choice(("pos", "pos", "kw", "alias"))))
+            qs.append(("G", r.choice(STRIPS), rand_tspec(r, present), r.choice(SEPS), r.choice(("pos", "pos", "kw", "alias"))))
         for _ in range(2):
-            qs.append(("A", r.random() < 0.5, rand_tspec(r, present)))
+            qs.append(("A", r.choice(STRIPS), rand_tspec(r, present)))
         return qs
     return plan
 
@@ -1435,14 +1487,21 @@ def heap_query(w, label, o, q):
     return f"{label}/G/0/{types_tok(norm_tspec(tspec))}/{septok}", lab_tok(got), lab_tok(want), True
 
 
+def rand_tspec_noiter(r, present):
+    while True:
+        t = rand_tspec(r, present)
+        if t[0] != "iter":
+            return t
+
+
 def heap_queries_for(r, o):
     NS = E()["el"].NavigableString
     present = list(dict.fromkeys(type(x) for x in o_strings_below(o))) if is_tag(o) else [type(o)]
     qs = [("ST",), ("TX",), ("SP",)]
     for _ in range(2):
-        qs.append(("A", False, rand_tspec(r, present)))
+        qs.append(("A", False, rand_tspec_noiter(r, present)))
     for _ in range(2):
-        qs.append(("G", False, rand_tspec(r, present), r.choice(([], [900], [900, 901], [32]))))
+        qs.append(("G", False, rand_tspec_noiter(r, present), r.choice(([], [900], [900, 901], [32]))))
     return qs
 
 
